@@ -353,7 +353,32 @@ func compileStruct(typ *runtime.Type, structName, fieldName string, structTypeTo
 		}
 		isUnexportedField := unicode.IsLower([]rune(field.Name)[0])
 		tag := runtime.StructTagFromField(field)
-		dec, err := compile(runtime.Type2RType(field.Type), structName, field.Name, structTypeToDecoder)
+		decoders := structTypeToDecoder
+		if field.Anonymous && !tag.IsTaggedKey {
+			embedded := runtime.Type2RType(field.Type)
+			if embedded.Kind() == reflect.Ptr {
+				embedded = embedded.Elem()
+			}
+			embeddedptr := uintptr(unsafe.Pointer(embedded))
+			if _, inProgress := structTypeToDecoder[embeddedptr]; inProgress && embedded.Kind() == reflect.Struct && embedded != typ {
+				// the embedded struct type is being compiled further up ( this struct is
+				// reached from one of its fields ): its fields are not known yet.  It is
+				// compiled once more, on its own, so that they can be taken over -- a struct
+				// type contributes its fields once along a chain of embedding, as in encoding/json
+				chain := embeddingChainOf(structTypeToDecoder)
+				if _, seen := chain.types[embeddedptr]; seen {
+					continue
+				}
+				decoders = make(map[uintptr]Decoder, len(structTypeToDecoder)+1)
+				for k, v := range structTypeToDecoder {
+					if k != embeddedptr {
+						decoders[k] = v
+					}
+				}
+				decoders[embeddingChainKey] = chain.with(typeptr, embeddedptr)
+			}
+		}
+		dec, err := compile(runtime.Type2RType(field.Type), structName, field.Name, decoders)
 		if err != nil {
 			return nil, err
 		}
@@ -454,6 +479,45 @@ func compileStruct(typ *runtime.Type, structName, fieldName string, structTypeTo
 	delete(structTypeToDecoder, typeptr)
 	structDec.tryOptimize()
 	return structDec, nil
+}
+
+// embeddingChain records, in the map of the struct types in progress, which
+// struct types have been compiled again for the sake of their embedded fields
+type embeddingChain struct {
+	types map[uintptr]struct{}
+}
+
+// no type descriptor lives at address 0
+const embeddingChainKey = uintptr(0)
+
+func embeddingChainOf(structTypeToDecoder map[uintptr]Decoder) *embeddingChain {
+	if c, ok := structTypeToDecoder[embeddingChainKey].(*embeddingChain); ok {
+		return c
+	}
+	return &embeddingChain{}
+}
+
+func (c *embeddingChain) with(typeptrs ...uintptr) *embeddingChain {
+	types := make(map[uintptr]struct{}, len(c.types)+len(typeptrs))
+	for k := range c.types {
+		types[k] = struct{}{}
+	}
+	for _, k := range typeptrs {
+		types[k] = struct{}{}
+	}
+	return &embeddingChain{types: types}
+}
+
+func (c *embeddingChain) Decode(*RuntimeContext, int64, int64, unsafe.Pointer) (int64, error) {
+	return 0, fmt.Errorf("json: embedding chain is not a decoder")
+}
+
+func (c *embeddingChain) DecodePath(*RuntimeContext, int64, int64) ([][]byte, int64, error) {
+	return nil, 0, fmt.Errorf("json: embedding chain is not a decoder")
+}
+
+func (c *embeddingChain) DecodeStream(*Stream, int64, unsafe.Pointer) error {
+	return fmt.Errorf("json: embedding chain is not a decoder")
 }
 
 func filterDuplicatedFields(allFields []*structFieldSet) []*structFieldSet {
